@@ -73,3 +73,41 @@ func TestGvcAdapterEncodeWriterToFlushed(t *testing.T) {
 	}
 	fmt.Printf("NOT-REPRODUCED Encode WriterTo: err=%v wire=%q\n", err, out.String())
 }
+
+// A stanza that only has an attribute of another namespace called id (x:id)
+// still gets a real id attribute.
+func TestGvcAdapterEncodePrefixedIDDoesNotCount(t *testing.T) {
+	var out strings.Builder
+	s := xmpptest.NewClientSession(0, struct {
+		io.Reader
+		io.Writer
+	}{strings.NewReader(""), &out})
+	start := xml.StartElement{Name: xml.Name{Local: "message"}, Attr: []xml.Attr{
+		{Name: xml.Name{Space: "urn:x", Local: "id"}, Value: "zz"},
+		{Name: xml.Name{Local: "to"}, Value: "a@example.net"},
+	}}
+	empty := xmlstream.ReaderFunc(func() (xml.Token, error) { return nil, io.EOF })
+	if err := s.SendElement(context.Background(), empty, start); err != nil {
+		fmt.Printf("NOT-REPRODUCED encode: send failed: %v\n", err)
+		return
+	}
+	d := xml.NewDecoder(strings.NewReader(out.String()))
+	tok, err := d.Token()
+	if err != nil {
+		fmt.Printf("NOT-REPRODUCED encode: output does not parse: %v (%q)\n", err, out.String())
+		return
+	}
+	se, _ := tok.(xml.StartElement)
+	hasID := false
+	for _, a := range se.Attr {
+		if a.Name.Space == "" && a.Name.Local == "id" && a.Value != "" {
+			hasID = true
+		}
+	}
+	if !hasID {
+		fmt.Printf("REPRODUCED encode: a message whose only id-like attribute is x:id (namespace urn:x) went out without an id attribute: %s\n", out.String())
+		t.Fail()
+		return
+	}
+	fmt.Println("NOT-REPRODUCED encode: the stanza got its own id attribute")
+}
